@@ -63,12 +63,10 @@ class Loader:
 
         # Take into account user specified lmax
         meta["lmax"] = meta["levelmax"]
-        if "amr" in _select:
-            if _select["amr"]:
-                if "level" in _select["amr"]:
-                    meta["lmax"] = utils.find_max_amr_level(
-                        levelmax=meta["levelmax"], select=_select["amr"]
-                    )
+        if isinstance(_select["mesh"], dict) and ("level" in _select["mesh"]):
+            meta["lmax"] = utils.find_max_amr_level(
+                levelmax=meta["levelmax"], select=_select["mesh"]
+            )
 
         # Initialize readers
         readers = {}
